@@ -80,3 +80,11 @@ Proof.
   unfold wf_req, small. split; [vm_compute; reflexivity|]. split; [|vm_compute; reflexivity].
   constructor; [vm_compute; reflexivity | constructor].
 Qed.
+
+From RcProxy Require Model.ClientCodecFast Proofs.ClientCodecFastProofs.
+(* the correspondence run evaluates `decode_fast` (Model/ClientCodecFast.v: linear-time readers, so that
+   requests with more keys than slots are affordable on every run); it is `decode` on every input *)
+Theorem C17_evaluated_decoder_is_the_model : forall limit b,
+  RcProxy.Model.ClientCodecFast.decode_fast limit b = decode limit b.
+Proof. exact RcProxy.Proofs.ClientCodecFastProofs.decode_fast_eq. Qed.
+Print Assumptions C17_evaluated_decoder_is_the_model.
